@@ -103,6 +103,16 @@ macro_rules! fp_suite {
                         });
                     }
                 }
+                // near-equal pairs (Montgomery representations differing in one limb, or in two limbs by the same delta): ==
+                for (xa, xb) in pool.eqpairs.iter() {
+                    let (fa, fb) = (mk(xa), mk(xb));
+                    let (sa, sb) = (fa.to_slice(), fb.to_slice());
+                    out.call("f.eq", json!({"F": $fstr, "a": b(&sa), "b": b(&sb)}), || outs! {"out" => Value::Bool(fa == fb && fb == fa)});
+                    out.call("f.sub", json!({"F": $fstr, "form": "vv", "a": b(&sa), "b": b(&sb)}), || {
+                        let r = fa - fb;
+                        outs! {"out" => b(&r.to_slice()), "outz" => Value::Bool(r.is_zero()), "outeq" => Value::Bool(Some(r) == <$t>::from_slice(&r.to_slice()))}
+                    });
+                }
                 // exponents whose Montgomery representation is a tiny integer / single limb
                 for (i, v) in pool.lo.iter().enumerate() {
                     let fe = mk(v);
@@ -163,9 +173,19 @@ macro_rules! fp_suite {
                     }
                     3 => {
                         // exponent: small, boundary or random
-                        let e = match rng.gen_range(0..4) {
+                        let e = match rng.gen_range(0..6) {
                             0 => { let mut v = vec![0u8; 32]; v[31] = rng.gen_range(0..5); v }
                             1 => pool.pick(&mut rng),
+                            2 | 3 => {
+                                // 64-bit limb patterns of the CANONICAL exponent: zero limbs below non-zero ones, all-ones limbs, single bits
+                                let mut v = vec![0u8; 32];
+                                for l in 0..4 {
+                                    let limb: u64 = match rng.gen_range(0..6) { 0 | 1 => 0, 2 => 1, 3 => u64::MAX, 4 => 1u64 << 63, _ => rng.gen() };
+                                    v[8 * l..8 * l + 8].copy_from_slice(&limb.to_be_bytes());
+                                }
+                                v[0] &= 0x3f;
+                                v
+                            }
                             _ => rand_bytes(&mut rng, 32),
                         };
                         let fe = mk(&e);
@@ -225,6 +245,18 @@ pub fn run_fq2(a: &Args, out: &mut Out) {
             _ => rand_bytes(rng, 32),
         }
     };
+    // sweep: Fq2 products whose interleaved Montgomery quotient (imaginary coefficient) has prescribed digits (TLC-generated)
+    if a.focus != "nosweep" {
+        for (i, qd) in pool.sopq.iter().enumerate() {
+            let (x, y) = (fq2_of(&qd[0], &qd[1]), fq2_of(&qd[2], &qd[3]));
+            let (sx, sy) = (x.to_slice(), y.to_slice());
+            let form = FORMS[i % 6];
+            out.call("f2.mul", json!({"form": form, "a": b(&sx), "b": b(&sy)}), || {
+                let r = fq2_binop("mul", form, x, y);
+                outs! {"out" => b(&r.to_slice()), "outz" => Value::Bool(r.is_zero()), "outeq" => Value::Bool(Some(r) == Fq2::from_slice(&r.to_slice()))}
+            });
+        }
+    }
     let mut k = 0u64;
     while !out.full() {
         k += 1;
